@@ -87,9 +87,19 @@ func (m *Machine) repInvariants(n *Node) {
 		n.JN = c.Var(n.Name+".jn", smt.SInt)
 		n.JK = c.Var(n.Name+".jk", smt.SInt)
 		lim := new(big.Int).Lsh(big.NewInt(1), 70)
+		if tm.IntAbsLimit != nil {
+			lim = tm.IntAbsLimit
+		}
 		m.AddBase(c.InRange(n.JN, new(big.Int).Neg(lim), lim))
-		m.AddBase(c.InRange(n.JK, big.NewInt(0), big.NewInt(3)))
-		m.DeclareRange(n.JK, big.NewInt(0), big.NewInt(3))
+		maxK := int64(3)
+		if tm.JNIntegersOnly {
+			maxK = 0
+		}
+		m.AddBase(c.InRange(n.JK, big.NewInt(0), big.NewInt(maxK)))
+		m.DeclareRange(n.JK, big.NewInt(0), big.NewInt(maxK))
+	}
+	if needInt && tm.IntAbsLimit != nil {
+		m.AddBase(c.InRange(n.IVal, new(big.Int).Neg(tm.IntAbsLimit), tm.IntAbsLimit))
 	}
 	for _, r := range tm.NumReps {
 		if r == RepFloat32 {
@@ -107,7 +117,42 @@ func (m *Machine) repInvariants(n *Node) {
 	}
 }
 
-func (m *Machine) childRepInvariants(parent, child *Node) {}
+// Container representations (CRep).
+const (
+	CRepCanonical = 0 // string / []any / map[string]any
+	CRepTyped     = 1 // named string type / []T / map[string]T
+	CRepAlt       = 2 // (arrays) Go array [n]any / (objects) map[NamedKey]any
+)
+
+func (m *Machine) crepInvariants(n *Node) {
+	c := m.Ctx
+	m.AddBase(c.InRange(n.CRep, big.NewInt(0), big.NewInt(2)))
+	m.DeclareRange(n.CRep, big.NewInt(0), big.NewInt(2))
+	m.AddBase(c.Implies(c.Or(n.TagIs(TagNull), n.TagIs(TagBool), n.TagIs(TagNumber)), c.Eq(n.CRep, c.Int(0))))
+	m.AddBase(c.Implies(n.TagIs(TagString), c.Le(n.CRep, c.Int(1))))
+}
+
+// TypedContainer returns the term "n is an array or object whose element type is concrete (not any)".
+func (n *Node) TypedContainer() *smt.Term {
+	c := n.m.Ctx
+	return c.And(c.Or(n.TagIs(TagArray), n.TagIs(TagObject)), c.Eq(n.CRep, c.Int(CRepTyped)))
+}
+
+// childRepInvariants constrains the children of typed containers: all elements share
+// the Go type of the first one, are not null, and carry no wrappers.
+func (m *Machine) childRepInvariants(parent, child, first *Node, tag int) {
+	c := m.Ctx
+	if parent.CRep.Op == smt.OpConst {
+		return
+	}
+	typed := c.And(parent.TagIs(tag), c.Eq(parent.CRep, c.Int(CRepTyped)))
+	if child == first {
+		m.AddBase(c.Implies(typed, c.And(c.Not(child.TagIs(TagNull)), c.Eq(child.Wrap, c.Int(0)),
+			c.Or(c.Eq(child.CRep, c.Int(0)), child.TagIs(TagString)))))
+		return
+	}
+	m.AddBase(c.Implies(typed, c.And(c.Eq(child.Tag, first.Tag), c.Eq(child.Rep, first.Rep), c.Eq(child.CRep, first.CRep), c.Eq(child.Wrap, c.Int(0)))))
+}
 
 // numValue returns the mathematical value and integrality of the node's number.
 func (m *Machine) numValue(n *Node) (*smt.Term, *smt.Term) {
